@@ -228,7 +228,7 @@ def expect(line):
                 elif op[0] == 'reset':
                     st = {}
                 else:
-                    out += [str(val(st, f, 3)) for f in tg]
+                    out += [str(val(st, f, a)) for f in tg for a in (3, 1)]
             parts.append(f'{name}=[' + ','.join(out) + ']')
         elif name[0] == 'C':
             cnt = {}
